@@ -15,6 +15,8 @@ SPEC = os.path.join(VERIF, 'spec')
 HARNESS = os.path.join(VERIF, 'harness')
 TLAJAR = '/opt/veriftools/tla/tla2tools.jar:/opt/veriftools/tla/CommunityModules-deps.jar'
 GUARD = 'GOLDILOCKS_VERIF'
+# evidence of runs against a scratch copy (mutation self-tests) must never overwrite the real evidence
+EVID = os.path.join(VERIF, 'evidence') if os.path.realpath(REPO) == '/repo' else os.path.join(CACHE, 'evidence_alt')
 NCPU = os.cpu_count() or 4
 P = 2**64 - 2**32 + 1
 
@@ -272,9 +274,11 @@ def unw64(l):
     return sum(b << (8 * i) for i, b in enumerate(l))
 
 
-def validate_trace(wd, module, cfg, trace_path, nsplit=None, timeout=1800, env=None, xmx='3g', min_chunk=200):
+def validate_trace(wd, module, cfg, trace_path, nsplit=None, timeout=1800, env=None, xmx='3g', min_chunk=200,
+                   max_rejects=40):
     """Validate an ndjson trace with TLC trace spec `module` (variable l, POSTCONDITION on diameter).
-    The trace is split into chunks validated by parallel single-worker TLC runs.
+    The trace is split into chunks validated by parallel single-worker TLC runs.  After a rejected record the
+    remainder of the chunk is validated too (so one rejection never leaves later records unexamined).
     Returns dict(accepted=n, total=n, rejected=[(global_index, record)], infra=[msgs], states, transitions)."""
     lines = [ln for ln in open(trace_path).read().split('\n') if ln.strip()]
     total = len(lines)
@@ -283,48 +287,52 @@ def validate_trace(wd, module, cfg, trace_path, nsplit=None, timeout=1800, env=N
     if nsplit is None:
         nsplit = max(1, min(NCPU, total // min_chunk))
     per = (total + nsplit - 1) // nsplit
-    chunks = []
-    for i in range(nsplit):
-        part = lines[i * per:(i + 1) * per]
-        if not part:
-            continue
-        p = '%s.part%d' % (trace_path, i)
-        open(p, 'w').write('\n'.join(part) + '\n')
-        chunks.append((i * per, p, len(part)))
+    chunks = [(i * per, min(total, (i + 1) * per)) for i in range(nsplit) if i * per < total]
     out = dict(accepted=0, total=total, rejected=[], infra=[], states=0, transitions=0)
 
     def one(ch):
-        off, p, n = ch
-        e = dict(env or {}); e['TRACE'] = p
-        r = tlc(wd, module, cfg, workers=1, env=e, timeout=timeout, xmx=xmx, tag='tv%d' % off)
-        return ch, r
-    with ThreadPoolExecutor(max_workers=NCPU) as ex:
-        results = list(ex.map(one, chunks))
-    for (off, p, n), r in results:
-        out['states'] += r.distinct; out['transitions'] += r.generated
-        if r.rc == 124:
-            out['infra'].append('timeout validating chunk at %d' % off)
-            continue
-        if r.error and not r.postcondition_failed and 'ostcondition' not in r.out:
-            out['infra'].append('TLC error in chunk at %d: %s' % (off, r.error))
-            out['last_out'] = r.out[-3000:]
-            continue
-        consumed = max(0, r.diameter - 1)
-        if consumed >= n and r.rc == 0:
-            out['accepted'] += n
-        else:
-            out['accepted'] += min(consumed, n)
-            idx = off + min(consumed, n - 1)
+        lo, hi = ch
+        acc = 0; rej = []; infra = []; st = 0; tr = 0; last = ''
+        cur = lo; rounds = 0
+        while cur < hi and rounds <= max_rejects:
+            rounds += 1
+            p = '%s.part%d_%d' % (trace_path, lo, rounds)
+            open(p, 'w').write('\n'.join(lines[cur:hi]) + '\n')
+            e = dict(env or {}); e['TRACE'] = p
+            r = tlc(wd, module, cfg, workers=1, env=e, timeout=timeout, xmx=xmx, tag='tv%d_%d' % (lo, rounds))
+            try:
+                os.remove(p)
+            except OSError:
+                pass
+            st += r.distinct; tr += r.generated
+            n = hi - cur
+            if r.rc == 124:
+                infra.append('timeout validating records %d..%d' % (cur, hi)); break
+            consumed = max(0, r.diameter - 1)
+            if consumed >= n and r.rc == 0:
+                acc += n; cur = hi; break
+            if r.error and 'ostcondition' not in r.out and not r.distinct:
+                infra.append('TLC error validating records %d..%d: %s' % (cur, hi, r.error)); last = r.out[-3000:]; break
+            if r.error and 'ostcondition' not in r.out and 'evaluating' in r.out:
+                # evaluation error inside a record: treat as rejection of that record (malformed / out of model)
+                pass
+            consumed = min(consumed, n - 1)
+            acc += consumed
+            idx = cur + consumed
             try:
                 rec = json.loads(lines[idx])
             except Exception:
                 rec = lines[idx]
-            out['rejected'].append((idx, rec))
-            out['last_out'] = r.out[-3000:]
-        try:
-            os.remove(p)
-        except OSError:
-            pass
+            rej.append((idx, rec)); last = r.out[-3000:]
+            cur = idx + 1
+        return acc, rej, infra, st, tr, last
+    with ThreadPoolExecutor(max_workers=NCPU) as ex:
+        results = list(ex.map(one, chunks))
+    for acc, rej, infra, st, tr, last in results:
+        out['accepted'] += acc; out['rejected'] += rej; out['infra'] += infra
+        out['states'] += st; out['transitions'] += tr
+        if last:
+            out['last_out'] = last
     return out
 
 
@@ -384,7 +392,7 @@ class Check:
                 if k['id'] not in [h['id'] for h in self.known_hits]:
                     self.known_hits.append(dict(id=k['id'], what=k['what'], key=key))
                 return False
-        rp = os.path.join(VERIF, 'evidence', 'replay', '%s_%d.json' % (self.pid, len(self.violations)))
+        rp = os.path.join(EVID, 'replay', '%s_%d.json' % (self.pid, len(self.violations)))
         os.makedirs(os.path.dirname(rp), exist_ok=True)
         json.dump(dict(property=self.pid, key=key, desc=desc, case=replay_obj), open(rp, 'w'), indent=1)
         self.violations.append((key, desc, rp))
@@ -405,8 +413,8 @@ class Check:
             cov.update(extra_cov)
         ev = dict(property_id=self.pid, tier=self.tier, seed=self.seed, level=level, coverage=cov,
                   assumptions=self.assumptions, wall_s=round(time.time() - self.t0, 1), violations=len(self.violations))
-        os.makedirs(os.path.join(VERIF, 'evidence'), exist_ok=True)
-        json.dump(ev, open(os.path.join(VERIF, 'evidence', self.pid + '.json'), 'w'), indent=1, default=str)
+        os.makedirs(EVID, exist_ok=True)
+        json.dump(ev, open(os.path.join(EVID, self.pid + '.json'), 'w'), indent=1, default=str)
         for h in self.known_hits:
             print('KNOWN-FINDING: property=%s %s' % (self.pid, h['what']), flush=True)
         for key, desc, rp in self.violations:
